@@ -98,7 +98,13 @@ Inductive case :=
   (* cacheableResolutionFailure(ctx, res) with the request-local facts realised in a real context *)
 | CaseAdmit (r : req_local) (obs : bool)
   (* Resolver.recordResolutionZoneFailure reached Store.RecordZoneFailure? *)
-| CaseZoneAdmit (zone_empty best_effort ctx_err : bool) (x : cause) (obs : bool)
+| CaseZoneAdmit (zone_empty best_effort ctx_err over_budget : bool) (x : cause) (obs : bool)
+  (* zoneadmit: a glue-less referral whose NS hosts' address lookups end as listed, in the order they
+     were looked up, the ones never reached last (0 NXDOMAIN, 1 lookup error, 7 empty NOERROR: no
+     address; 2 attempt limit; 3 work limit, 4 max recursion, 5 canceled, 6 deadline); hosts looked up;
+     the request tree over budget; zone failures filed; class of processDelegation's error (1 no
+     reachable authority, 2..6 as for the hosts, 0 none, 9 other); IsRequestLocalResolutionError of it *)
+| CaseGlueless (hosts : list N) (looked : nat) (over_budget : bool) (records : Z) (err : N) (local : bool)
   (* pipeline: cache.New(cfg) with failure TTL settings (raw, 0 = default), rfc9520 switch;
      eff_* = what the constructed FailureCache ended up with *)
 | CasePipe (raw_size raw_init raw_max : Z) (disabled exact : bool) (eff_init eff_max : Z)
@@ -152,9 +158,10 @@ Inductive case :=
      pre = ordinary queries one after the other; then every leader is parked in the downstream
      handler, every follower arrives, the leaders are released in order and after each the followers
      that went downstream themselves; in_flight = requests inside the downstream handler before any
-     leader returned; final = the failure cache afterwards *)
+     leader returned; post = ordinary queries one after the other once every request of the cohort has
+     returned (what the state the cohort left means for the next clients); final = the failure cache afterwards *)
 | CaseCohort (raw_size raw_init raw_max : Z) (disabled : bool) (eff_init eff_max : Z) (tab : list (qkey * N))
-             (pre : list cmember) (groups : list (cmember * list cmember)) (in_flight : Z) (final : list (N * entry)).
+             (pre : list cmember) (groups : list (cmember * list cmember)) (post : list cmember) (in_flight : Z) (final : list (N * entry)).
 
 (* ---------------------------------------------------------------- model run *)
 Section Run.
@@ -391,6 +398,15 @@ Definition lab_obs_ok (o : fo_out) (records clears : Z) (rcode : N) : bool :=
   | _ => false
   end.
 
+Definition gl_host (b : N) : nshost :=
+  if (b =? 2)%N then NHAttemptLimit else if (b =? 3)%N then NHFatal CWorkLimit else if (b =? 4)%N then NHFatal CMaxRecursion
+  else if (b =? 5)%N then NHFatal CCanceled else if (b =? 6)%N then NHFatal CDeadline else NHNoAddr.
+Definition gl_err_code (o : gl_out) : N :=
+  match o with
+  | GLNoAuth => 1 | GLLocal CAttemptLimit => 2 | GLLocal CWorkLimit => 3 | GLLocal CMaxRecursion => 4
+  | GLLocal CCanceled => 5 | GLLocal CDeadline => 6 | GLLocal _ => 9
+  end%N.
+
 (* under an observed schedule the outcome is exact: the answer; the FIRST response error (NXDOMAIN
    before any other), published once iff it is of the server-failure class; the connection-failed
    error, published once *)
@@ -421,7 +437,13 @@ Definition check_case (x : case) : bool :=
       let '(s, _, ok) := run_ops (tab_H tab) c (mk_store [] disabled) 0 ops in
       cfg_validb c && ok && same_map (s_map s) final
   | CaseAdmit r obs => Bool.eqb (cacheable_failure r) obs
-  | CaseZoneAdmit ze be ce x obs => Bool.eqb (zone_failure_admitted ze be ce x) obs
+  | CaseZoneAdmit ze be ce ob x obs => Bool.eqb (zone_failure_admitted ze be ce ob x) obs
+  | CaseGlueless hosts looked ob records err local =>
+      let hs := map gl_host hosts in
+      let '(o, n) := glueless hs in
+      (n =? looked)%nat && (err =? gl_err_code o)%N &&
+      (records =? (if glueless_published hs false false ob then 1 else 0)) &&
+      Bool.eqb local (match o with GLLocal _ => true | GLNoAuth => false end)
   | CasePipe raw_size raw_init raw_max disabled exact eff_init eff_max tab steps final =>
       let c := pipe_cfg raw_size raw_init raw_max in
       (c_init c =? eff_init) && (c_max c =? eff_max) &&
@@ -523,15 +545,16 @@ Definition check_case (x : case) : bool :=
       (length want =? length keys)%nat &&
       forallb (fun p => opt_N_eqb (fst p) (snd p)) (combine want keys) &&
       (calls =? 1) && (cached =? Z.of_nat (length names) - 1)
-  | CaseCohort raw_size raw_init raw_max disabled eff_init eff_max tab pre groups in_flight final =>
+  | CaseCohort raw_size raw_init raw_max disabled eff_init eff_max tab pre groups post in_flight final =>
       let c := pipe_cfg raw_size raw_init raw_max in
       let H := tab_H tab in
       (c_init c =? eff_init) && (c_max c =? eff_max) &&
       (* a follower asks its leader's question (up to letter case and host bits of the ECS source) *)
       forallb (fun g => forallb (fun f => qkey_eqb (norm_qkey (cm_key f)) (norm_qkey (cm_key (fst g)))) (snd g)) groups &&
       let '(s0, pos0, ok0) := run_prelude H c (mk_store [] disabled) [] 0 pre in
-      let '(s, _, out) := cohort_run H c s0 pos0 s0 pos0 0 (map (fun g => (cm_req (fst g), map cm_req (snd g))) groups) in
-      ok0 && cohort_obs_ok groups out &&
+      let '(s1, pos1, out) := cohort_run H c s0 pos0 s0 pos0 0 (map (fun g => (cm_req (fst g), map cm_req (snd g))) groups) in
+      let '(s, _, ok2) := run_prelude H c s1 pos1 0 post in
+      ok0 && ok2 && cohort_obs_ok groups out &&
       (* before any leader returned exactly the leaders that missed were downstream: every follower waited *)
       (in_flight =? Z.of_nat (length (filter (fun o => cans_eqb (fst o) (CDown false)) out))) &&
       same_map (s_map s) final
@@ -826,6 +849,10 @@ Fixpoint spec_groups (init max : Z) (disabled : bool) (view l : pledger) (now : 
       spec_groups init max disabled view (fold_left (fun acc f => spec_cm_bump acc now f) fs l1) now r
   end.
 
+(* the ledger once every request of the cohort has returned (the order spec_groups walks in) *)
+Definition groups_ledger (l : pledger) (now : Z) (groups : list (cmember * list cmember)) : pledger :=
+  fold_left (fun acc g => fold_left (fun a f => spec_cm_bump a now f) (snd g) (spec_cm_bump acc now (fst g))) groups l.
+
 Definition spec_case (x : case) : bool :=
   match x with
   | CaseBackoff init max obs =>
@@ -851,7 +878,14 @@ Definition spec_case (x : case) : bool :=
       | None => false
       end
   | CaseAdmit r obs => if request_local r then negb obs else true
-  | CaseZoneAdmit ze be ce x obs => if ze || be || ce || cause_local x then negb obs else true
+  | CaseZoneAdmit ze be ce ob x obs => if ze || be || ce || ob || cause_local x then negb obs else true
+  | CaseGlueless hosts looked ob records err local =>
+      (* a zone failure only when every host of the delegation was looked up and had no address, and
+         never from a tree that is over budget; as soon as a host reached by the walk could not be
+         looked up for a cause local to this request the delegation ends in a request-local error *)
+      let local_host (b : N) := (2 <=? b)%N && (b <=? 6)%N in
+      (if (0 <? records) then forallb (fun b => negb (local_host b)) hosts && (length hosts =? looked)%nat && negb ob && (records =? 1) else true) &&
+      (if existsb local_host (firstn looked hosts) then (records =? 0) && local else true)
   | CasePipe raw_size raw_init raw_max disabled exact eff_init eff_max tab steps final =>
       (spec_floor <=? eff_init) && (eff_init <=? eff_max) && (eff_max <=? spec_ceiling) &&
       spec_psteps eff_init eff_max disabled [] [] 0 steps &&
@@ -905,9 +939,12 @@ Definition spec_case (x : case) : bool :=
   | CaseProbe tab zone qclass names keys calls cached =>
       (* the first retry after a backoff is led by a single probe *)
       (calls =? 1)
-  | CaseCohort raw_size raw_init raw_max disabled eff_init eff_max tab pre groups in_flight final =>
+  | CaseCohort raw_size raw_init raw_max disabled eff_init eff_max tab pre groups post in_flight final =>
       (spec_floor <=? eff_init) && (eff_init <=? eff_max) && (eff_max <=? spec_ceiling) &&
       (let '(ok, l0) := spec_prelude eff_init eff_max disabled [] 0 pre in
-       ok && spec_groups eff_init eff_max disabled l0 l0 0 groups) &&
+       ok && spec_groups eff_init eff_max disabled l0 l0 0 groups &&
+       (* the clients that come next are judged against what the cohort left: a failure a useful answer
+          of the cohort has reset since must not be served any more *)
+       fst (spec_prelude eff_init eff_max disabled (groups_ledger l0 0 groups) 0 post)) &&
       (if disabled then match final with [] => true | _ => false end else true)
   end.
